@@ -187,13 +187,18 @@ class C03(Prop):
         two = [r for r in nt["rows"] if r["flow"].startswith("FTwoStep")]
         ident = nt.get("ident") or []
         fits = {("CHttp", "SClient"), ("CTcp", "SPeer"), ("CDirect", "SPeer")}   # mirror of Model.C03_Origin.ip_ok
+        engines = nt.get("engines") or []
+        noset = [r["id"] for r in engines if not r["trusted_set"]
+                 and r["id"] != "internal/servers/moq/http_server.go:initialize:routerHTTP3"]   # pinned in Proofs/C03_Flows.v
         badip = [r["id"] + " = " + r["carrier"] + " / " + r["src"] + " (" + r["note"] + ")" for r in ident
                  if (r["carrier"], r["src"]) not in fits]
         return ["%d path-manager call sites (%d two-step flows, %d exempt), %d stream-level sites in the servers, "
                 "%d unclassified%s" % (nt["sites"], len(two), len(nt["exempt"]), nt["stream_sites"],
                                        len(nt["unclassified"]), ("; NOT a well-formed flow: " + "; ".join(bad)) if bad else ""),
                 "%d authenticating call sites with the expression that supplies AccessRequest.IP%s"
-                % (len(ident), ("; source does NOT fit the carrier: " + "; ".join(badip)) if badip else "")] + \
+                % (len(ident), ("; source does NOT fit the carrier: " + "; ".join(badip)) if badip else ""),
+                "%d gin engines%s" % (len(engines), ("; SetTrustedProxies is not called unconditionally on: "
+                                                     + ", ".join(noset)) if noset else "")] + \
             ["unclassified: " + u for u in nt["unclassified"]]
 
 
